@@ -39,14 +39,27 @@ def main():
             rr = sh("./check %s" % p, cwd=HERE)
             nv = rr.stdout.count("VIOLATION property=")
             nb = rr.stdout.count("ANALYSIS-BROKEN")
-            res[p] = {"exit": rr.returncode, "violations": nv, "broken": nb}
+            res[p] = {"exit": rr.returncode, "violations": nv, "broken": nb,
+                      "first": [l[:300] for l in rr.stdout.splitlines() if ": R" in l and not l.startswith("VIOLATION")][:3]}
         sh("git -C %s checkout -q -- ." % REPO)
         sh("git -C %s clean -fdq -e _build" % REPO)
         out[s] = {"applied": True, "patch": os.path.basename(patch), "results": res}
         hit = [p for p, v in res.items() if v["exit"] == 1]
         brk = [p for p, v in res.items() if v["exit"] == 2]
         print("%-7s own=%s  detected_by=%s  broken=%s" % (s, {1: "VIOLATION", 0: "missed", 2: "broken"}[res[own]["exit"]], ",".join(hit) or "-", ",".join(brk) or "-"))
-    json.dump(out, open(os.path.join(HERE, "seeded", "SWEEP.json"), "w"), indent=1)
+    path = os.path.join(HERE, "seeded", "SWEEP.json")
+    merged = {}
+    if os.path.exists(path) and args:
+        try:
+            merged = json.load(open(path))
+        except ValueError:
+            merged = {}
+    for k, v in out.items():
+        if all_checks or k not in merged or not merged[k].get("results") or len(merged[k]["results"]) <= 1:
+            merged[k] = v
+        else:
+            merged[k]["results"].update(v.get("results", {}))
+    json.dump(merged, open(path, "w"), indent=1, sort_keys=True)
     return 0
 
 
